@@ -1348,6 +1348,13 @@ def run_threads_node(a5mod, seam, spec, hot=None, prepared=None):
 def _mutate(obj, how, rng_val):
     """Caller-side mutation of an object the caller owns.  Returns a short
     description of what was applied, or None if obj is not mutable."""
+    if how == 'inner' and isinstance(obj, (list, tuple, dict)):
+        # edit a mutable object nested inside what the caller holds (a shallow copy would share it)
+        inner = [x for x in (obj.values() if isinstance(obj, dict) else obj) if isinstance(x, (list, dict))]
+        if inner:
+            r = _mutate(inner[rng_val % len(inner)], 'overwrite', rng_val)
+            return 'inner.' + r if r else None
+        how = 'overwrite'
     if isinstance(obj, list):
         if how == 'clear':
             obj.clear()
@@ -1551,7 +1558,7 @@ def run_history_node(a5mod, seam, spec):
                 returned[oid] = outcome[1]
             # every result handed out earlier must still be what the caller holds (unless the caller edited it)
             for rid, (_, rv, rf) in owned.items():
-                if rid != oid and rid in returned and rid not in caller_edited and rv is not None and not isinstance(rv, (int, float, str, tuple)):
+                if rid != oid and rid in returned and rid not in caller_edited and rv is not None and not isinstance(rv, (int, float, str)):
                     now = canon.enc(rv)
                     if now != returned[rid]:
                         rec['changed_later'] = {'id': rid, 'f': rf, 'was': returned[rid], 'now': now}
